@@ -35,6 +35,11 @@ type Case struct {
 	// refuse to sign or write such an exchange; what it agrees to sign and write must read back
 	// and verify like any other.
 	Colliding bool `json:"colliding,omitempty"`
+	// PresetDigest: the response handed to the library ALREADY carries the integrity header of its
+	// version under this spelling of the name (a re-signed exchange, a proxy that kept the field),
+	// or, with "twice", MiEncodePayload is simply called a second time. The library may refuse;
+	// whatever it goes on to sign and write must still verify.
+	PresetDigest string `json:"preset_digest,omitempty"`
 	// UsedSigner: format version of an unrelated exchange that the SAME Signer object signed before
 	// ("" = fresh signer).
 	UsedSigner string `json:"used_signer,omitempty"`
@@ -121,6 +126,44 @@ var prop = vh.Define("C02", "roundtrip", func(c Case, r *vh.R) {
 	}
 	s := &c.Spec
 	r.Class(s.Version)
+	if c.PresetDigest != "" {
+		r.Class("digest-header-present-before-encoding")
+		e0 := sxgkit.New(s)
+		if c.PresetDigest != "twice" {
+			e0.ResponseHeaders.Add(c.PresetDigest, "mi-sha256-03=AAAAAAAAAAAAAAAAAAAAAAAAAAAAAAAAAAAAAAAAAAA=")
+		} else if err := e0.MiEncodePayload(s.RecordSize); err != nil {
+			r.Failf("sign-error", "MiEncodePayload: %v", err)
+			return
+		}
+		if err := e0.MiEncodePayload(s.RecordSize); err != nil {
+			r.Class("refused-digest-header-present")
+			return
+		}
+		sg, err := sxgkit.Signer(s)
+		if err != nil {
+			r.Skip = true
+			return
+		}
+		if err := e0.AddSignatureHeader(sg); err != nil {
+			r.Class("refused-digest-header-present")
+			return
+		}
+		var buf bytes.Buffer
+		if err := e0.Write(&buf); err != nil {
+			r.Class("refused-digest-header-present")
+			return
+		}
+		e1, err := signedexchange.ReadExchange(bytes.NewReader(buf.Bytes()))
+		if err != nil {
+			r.Failf("read-error", "the library signed and wrote an exchange whose integrity header was present before encoding (%s); ReadExchange: %v", c.PresetDigest, err)
+			return
+		}
+		mid := s.Date + (s.Expires-s.Date)/2
+		if _, ok, lg := sxgkit.VerifyLog(e1, mid, sxgkit.Fetcher(s.Fixture)); !ok {
+			r.Failf("verify-rejects-own-output", "the library agreed to encode, sign and write an exchange whose integrity header was present before encoding (%s), but what it wrote does not verify: %s", c.PresetDigest, lg)
+		}
+		return
+	}
 	e, _, err := sxgkit.Build(s)
 	if c.UsedSigner != "" {
 		e, _, err = sxgkit.BuildWithUsedSigner(s, c.UsedSigner)
@@ -354,6 +397,12 @@ func TestPropRoundTrip(t *testing.T) {
 		case 2:
 			// an extra value for Content-Type (multi-valued)
 			c.Spec.ResHeaders = append(c.Spec.ResHeaders, gen.HeaderKV{Name: "content-TYPE", Values: []string{"text/plain"}})
+		case 4:
+			if c.Spec.Version == "1b1" {
+				c.PresetDigest = rapid.SampledFrom([]string{"MI-Draft2", "Mi-Draft2", "mi-draft2", "twice"}).Draw(t, "presetdigest")
+			} else {
+				c.PresetDigest = rapid.SampledFrom([]string{"Digest", "digest", "DIGEST", "twice"}).Draw(t, "presetdigest")
+			}
 		case 3:
 			c.Colliding = true
 			for i := 0; i < 8; i++ {
